@@ -17,7 +17,7 @@ theorem, `send_local_message` and `crash_node`); the kernel-checked counterexamp
 * `SimW.pend` also speaks about crashed nodes, but `crash_node` leaves `pending_timers` of the
   crashed processes as they are while the reference crash removes their timers.
 
-`Sim.toSim'` turns `Sim` into `Sim'` on sorted systems.
+`Sim.toSim'` turns `SimRel0` into `Sim'` on sorted systems.
 -/
 namespace Anysystem
 
@@ -28,7 +28,7 @@ variable {σ : Type}
 /-- a system with nothing pending is related to the reference state with the same processes -/
 theorem Sim.init (s : McSys σ) (ht : WFTopo s) (he : s.events = {})
     (hp : ∀ nd ∈ s.nodes, ∀ pe ∈ nd.2.procs, pe.2.pending = []) (hc : ∀ nd ∈ s.nodes, nd.2.crashed = false) :
-    Sim s { procs := procsOf s, net := s.net, trace := s.trace } := by
+    SimRel0 s { procs := procsOf s, net := s.net, trace := s.trace } := by
   refine ⟨{}, ⟨ht, by rw [he]; exact Rep.empty, rfl, rfl, rfl, ?_, rfl, rfl, ?_, List.Pairwise.nil, ?_, ?_⟩⟩
   · intro nd hnd
     simp [hc nd hnd]
@@ -38,8 +38,8 @@ theorem Sim.init (s : McSys σ) (ht : WFTopo s) (he : s.events = {})
   · intro x hx; simp at hx
 
 /-- network settings and the ordering mode are not constrained by the relation beyond equality -/
-theorem Sim.setNet {s : McSys σ} {r : RState σ} (hs : Sim s r) (n : McNet) (hloc : n.procLoc = s.net.procLoc) :
-    Sim { s with net := n } { r with net := n } := by
+theorem Sim.setNet {s : McSys σ} {r : RState σ} (hs : SimRel0 s r) (n : McNet) (hloc : n.procLoc = s.net.procLoc) :
+    SimRel0 { s with net := n } { r with net := n } := by
   obtain ⟨a, hw⟩ := hs
   have hc : ∀ q, ({ r with net := n } : RState σ).procCrashed q = r.procCrashed q :=
     procCrashed_congr (by simp only [hloc, hw.net]) rfl
@@ -53,7 +53,7 @@ theorem Sim.setNet {s : McSys σ} {r : RState σ} (hs : Sim s r) (n : McNet) (hl
   | timer p nm d => simp only [hc]; exact this
   | _ => trivial
 
-theorem Sim.setMode {s : McSys σ} {r : RState σ} (hs : Sim s r) (m : Mode) : Sim { s with mode := m } r := by
+theorem Sim.setMode {s : McSys σ} {r : RState σ} (hs : SimRel0 s r) (m : Mode) : SimRel0 { s with mode := m } r := by
   obtain ⟨a, hw⟩ := hs
   exact ⟨a, ⟨hw.topo.congr rfl rfl, hw.rep, hw.flights, hw.timers, hw.procs, hw.crashed, hw.net, hw.trace,
     hw.pend, hw.uniq, hw.tm, hw.clean⟩⟩
